@@ -3,6 +3,7 @@ CONSTANTS
   Tree = "T2"
   EnvFull = FALSE
   AoptFull = FALSE
+  WithDcf = TRUE
   Emit = TRUE
 INVARIANT AlgIsSelect
 INVARIANT OneSectionPerLevel
